@@ -193,8 +193,10 @@ def rule_c(ctx, ix):
     on = [st for st in sets if isinstance(st.value, ast.Constant) and st.value.value is True]
     off = [st for st in sets if isinstance(st.value, ast.Constant) and st.value.value is False]
     rec = [c for c in ast.walk(f.node) if isinstance(c, ast.Call) and call_name(c) == 'get_mask']
-    if len(on) != 1 or len(off) != 1 or len(rec) != 1:
+    if len(on) != 1 or not off or len(rec) != 1:
         raise AnalysisError('get_mask_with_key_joins: recursion guard not recognised')
+    fin = [st for st in off if in_finally(pm, st) is not None]
+    off = fin or off
     ctx.ob(R, f.construct, 'the guard is set on this dataset before the recursive call', unparse(on[0].targets[0]) == '%s._recursing' % data_p
            and on[0].lineno < rec[0].lineno,
            detail='the recursion flag is not set on the dataset being evaluated before other.get_mask(...)', where=where(f, on[0]))
